@@ -1,5 +1,6 @@
 import Driver.Util
 import BitcaskVerif.Conc.ConnLimit
+import BitcaskVerif.Conc.AcceptBackoff
 
 namespace Driver
 
@@ -42,6 +43,13 @@ def clStep (c : CL) (toks : List String) : Option (CL × String) :=
     n.toNat?.bind fun n =>
       ((List.replicate n (ConnLimit.Ev.acceptFail false)).foldlM ConnLimit.step c.st).map fun s =>
         let c' := clSettle 64 { c with st := s }; (c', clServed c')
+  | ["cl.backoff", mn, mx, k] =>
+    -- `Listener::accept` with min/max back-off against k failing accept(2) calls and then a connection:
+    -- how it ends, accept(2) calls made, milliseconds slept (AcceptBackoff.accept)
+    mn.toNat?.bind fun mn => mx.toNat?.bind fun mx => k.toNat?.map fun k =>
+      let r := AcceptBackoff.accept mn mx (List.replicate k false ++ [true])
+      let o := match r.1 with | .accepted => "accepted" | .gaveUp => "gaveUp" | .waiting => "waiting"
+      (c, s!"{o} {r.2.1} {r.2.2}")
   | ["cl.served"] => some (c, clServed c)
   | _ => none
 
